@@ -14,6 +14,24 @@ from .common import Flow, calls_to, unparse
 BYCL = "main_loop._compute_log_likelihood_by_cluster"
 
 
+def per_cluster_helper(ana):
+    """The function that builds the per-cluster likelihood lists: by name, or - if it was moved/renamed - by role: the package
+    function called by fit_stacked_data whose result is what gets flattened into all_log_likelihood."""
+    if ana.prog.has_func(BYCL):
+        return ana.func(BYCL)
+    ml = ana.func("main_loop.fit_stacked_data")
+    ctor = calls_to(ana, ml, "fast_ticc.containers.results.SingleDataSeriesResult")
+    if len(ctor) == 1:
+        kw = {k.arg: k.value for k in ctor[0].node.keywords}
+        if "all_log_likelihood" in kw:
+            fl = Flow(ana, ml)
+            dep = fl.closure(kw["all_log_likelihood"])
+            cands = [ana.prog.functions[n] for n in dep.call_names if n in ana.prog.functions and "log_likelihood" in n]
+            if len(cands) == 1:
+                return cands[0]
+    raise AnalysisError("the function that builds the per-cluster log-likelihood lists cannot be located (neither by name nor by role)")
+
+
 def _mutation_sites(fi, name):
     """Every construct in the function that inserts into / overwrites the object bound to `name` or its elements."""
     out = []
@@ -56,7 +74,7 @@ def _mutation_sites(fi, name):
 @rule("C06", "R1", "OWN", "the per-point list gets exactly one entry per labelled point and nothing else", floor=4)
 def r1(ctx):
     ana = ctx.ana
-    fi = ana.func(BYCL)
+    fi = per_cluster_helper(ana)
     b = ana.builder(fi, no_inline=ana.known)
     cfg = ana.cfg(fi)
     data, m = Sym(fi.params[0]), Sym(fi.params[1])
@@ -64,10 +82,11 @@ def r1(ctx):
     if len(rets) != 1 or not isinstance(rets[0].ast.value, ast.Name):
         raise AnalysisError("_compute_log_likelihood_by_cluster does not return a single local list")
     name = rets[0].ast.value.id
-    defs = [n for n in cfg.nodes if n.kind == "stmt" and isinstance(n.ast, ast.Assign) and name in n.defs]
+    from .common import def_value
+    defs = [n for n in cfg.nodes if n.kind == "stmt" and name in n.defs and def_value(n) is not None]
     if len(defs) != 1:
         raise AnalysisError("the per-cluster list is not created by a single assignment")
-    t0 = b.term(defs[0].ast.value, defs[0])
+    t0 = b.term(def_value(defs[0]), defs[0])
     K = Attr(Attr(m, "arguments"), "num_clusters")
     ok = isinstance(t0, Comp) and not t0.conds and t0.elt == Lst([]) and t0.iter in (Range(0, K), Range(0, tm.length(Attr(m, "clusters"))))
     ctx.check(ok, fi, "one empty list per cluster id is created first", line=defs[0].lineno, role="init", expected="[[] for k in range(K)]", found=str(t0))
@@ -108,13 +127,15 @@ def r1(ctx):
     if len(calls) != 1:
         raise AnalysisError("fit_stacked_data does not call _compute_log_likelihood_by_cluster exactly once")
     cn = ana.cfg(ml).node_of(calls[0].node)
-    var = cn.ast.targets[0].id if isinstance(cn.ast, ast.Assign) and isinstance(cn.ast.targets[0], ast.Name) else None
+    from .common import def_target
+    var = def_target(cn)
     if var is None:
         raise AnalysisError("per-cluster lists are not bound to a local in fit_stacked_data")
     extra = _mutation_sites(ml, var)
     ctx.check(not extra, ml, "the per-cluster lists are not modified between their construction and the flattening", role="insert:main-loop",
               expected="no mutation", found="; ".join(unparse(e, 50) for e in extra))
-    bm = ana.builder(ml, no_inline=ana.known)
+    _h = per_cluster_helper(ana)
+    bm = ana.builder(ml, no_inline=lambda f: ana.known(f) or f is _h)
     ctor = calls_to(ana, ml, "fast_ticc.containers.results.SingleDataSeriesResult")
     kw = {k.arg: k.value for k in ctor[0].node.keywords}
     t = bm.term(kw["all_log_likelihood"])
@@ -131,7 +152,8 @@ def r1(ctx):
 def r2(ctx):
     ana = ctx.ana
     ml = ana.func("main_loop.fit_stacked_data")
-    bm = ana.builder(ml, no_inline=ana.known)
+    _h = per_cluster_helper(ana)
+    bm = ana.builder(ml, no_inline=lambda f: ana.known(f) or f is _h)
     ctor = calls_to(ana, ml, "fast_ticc.containers.results.SingleDataSeriesResult")
     if len(ctor) != 1:
         raise AnalysisError("SingleDataSeriesResult constructor call not found exactly once")
@@ -142,7 +164,7 @@ def r2(ctx):
         ok = isinstance(t, App) and t.fn == fn and t.args == (allt,) and not t.kw
         ctx.check(ok, ml, f"`{f}` = {fn.split('.')[1]} of exactly the list stored as all_log_likelihood", role=f"aggregate:{f}",
                   expected=f"{fn}(all_log_likelihood)", found=str(t)[:140])
-    per = [x for x in tm.subterms(allt) if isinstance(x, App) and x.fn.endswith("_compute_log_likelihood_by_cluster")]
+    per = [x for x in tm.subterms(allt) if isinstance(x, App) and x.fn == per_cluster_helper(ana).qualname]
     if not per:
         raise AnalysisError("per-cluster source of all_log_likelihood not found")
     per = per[0]
